@@ -520,8 +520,8 @@ class Qobj:
             return NotImplemented
         return Qobj(_data.pow(self._data, n),
                     dims=self._dims,
-                    isherm=self._isherm,
-                    isunitary=self._isunitary,
+                    isherm=self._isherm or None,
+                    isunitary=self._isunitary or None,
                     copy=False)
 
     def _str_header(self):
